@@ -186,9 +186,15 @@ func runCheck(o *options) int {
 	}
 	defer os.RemoveAll(tmp)
 	var obls []*Obligation
+	unchecked := false
 	for _, r := range results {
 		if r.ctx != nil {
 			for _, ob := range r.ctx.obls {
+				if r.fc.IsPart && (ob.Kind == "inv.init" || ob.Kind == "inv.keep") && !partialClaims(r.fc, ob) {
+					// a loop invariant is assumed after the loop: a partial contract must claim it
+					fmt.Printf("govc: %s: loop invariant %s is assumed but its obligation kind is not claimed by the partial contract\n", r.key, ob.ID)
+					unchecked = true
+				}
 				if len(want) > 0 {
 					hit := false
 					for _, p := range ob.Props {
@@ -207,6 +213,15 @@ func runCheck(o *options) int {
 				}
 				obls = append(obls, ob)
 			}
+		}
+	}
+	// An obligation recorded as a known finding is expected to fail; in the quick tier it gets a
+	// short second round (it is reported as KNOWN-FINDING unless a solver proves it, so the only
+	// effect of the shorter budget is on a repaired tree whose proof needs longer: thorough tells).
+	knownOb := map[string]bool{}
+	for _, k := range loadKnown(filepath.Join(o.verif, "known_findings.json")) {
+		if k.Status == "known" {
+			knownOb[k.Obligation] = true
 		}
 	}
 	sem := make(chan struct{}, o.jobs)
@@ -244,7 +259,11 @@ func runCheck(o *options) int {
 			for i, part := range ob.parts {
 				part := part
 				text := func(noLambda bool) string { return ob.queryGoal(prelude, noLambda, false, part) }
-				res, all := solve(tmp, text, o.quickS, o.fullS)
+				fullS := o.fullS
+				if knownOb[ob.ID] && o.tier != "thorough" && fullS > 2*o.quickS {
+					fullS = 2 * o.quickS
+				}
+				res, all := solve(tmp, text, o.quickS, fullS)
 				total += res.timeS
 				ob.All = append(ob.All, all...)
 				ob.Res = res
@@ -304,7 +323,11 @@ func runCheck(o *options) int {
 	solveS := time.Since(t0).Seconds() - loadS - genS
 
 	rep := &Report{o: o, eng: eng, results: results, obls: obls, loadS: loadS, genS: genS, solveS: solveS, t0: t0, prelude: prelude, tmp: tmp}
-	return rep.finish()
+	code := rep.finish()
+	if unchecked && code == 0 {
+		code = 2
+	}
+	return code
 }
 
 func partialClaims(fc *FuncContract, ob *Obligation) bool {
